@@ -18,9 +18,11 @@
    ._evaluate__, the one coverage test of the operator's cache, checks that a covered lookup is replayed from the cache and nothing
    else (most general of the retrieved rows), that rows are stored by update_cache with the flag of the current row, and WHERE the
    test stands (ElseIf asks its right-side cache only for a row its left side rejected) - on every run.
-   MISSING: that no assignment comes out twice when rows leave keys open (what the selection of the most general retrieved rows is
-   for), and which `yield_when_false` a cached row was recorded under: covered by the correspondence check (cache on vs cache off
-   vs specification), not by a theorem. *)
+   PROVED PART (C05_indexed_no_assignment_twice): for every such operator and ANY history of lookups a covered lookup is answered
+   with exactly ONE row - the lookup itself - and an uncovered one with the operator's own rows: no assignment comes out twice
+   (what the selection of the most general retrieved rows is for).
+   MISSING: which `yield_when_false` a cached row was recorded under, and the composition of the five call sites inside one
+   evaluator: covered by the correspondence check (cache on vs cache off vs specification), not by a theorem. *)
 From EQL Require Import Base Generated Memo_Facts IndexedCache IndexedCache_Facts IndexedCache_Sound IndexedMemo_Facts IndexedMemo_Den.
 
 Theorem C05_memo_transparent_partial : forall (K R : Type) (keqb : K -> K -> bool),
@@ -129,6 +131,53 @@ Proof.
   - repeat (apply Forall_cons; [split; [reflexivity | cbn; tauto]|]). apply Forall_nil.
   - vm_compute. reflexivity.
   - vm_compute. split; reflexivity.
+Qed.
+
+(* NO ASSIGNMENT TWICE.  Same operators (rows may leave cache keys open).  Further hypotheses: a full row extends a stored row
+   together with a lookup it agrees with (the domains are not empty and lookups bind values of the domains), the lookups are
+   dicts (no key twice), and the UNCACHED operator yields no assignment twice ([once]: no full row is stood for by two rows of one
+   answer - for the operators of the P-model that is the partition theorem of C01).  Then over ANY history of lookups every
+   answer of the cached call site is EITHER the operator's own rows for the lookup (the lookup was evaluated) OR the single row
+   "the lookup itself" (it was covered: the stored binding that covers it, merged into the lookup, is the lookup; every other
+   retrieved row contains it with the same truth flag; the selection of the most general rows keeps exactly it) - so no answer
+   yields an assignment twice.  Together with C05_indexed_denotation: the cached call site yields the same assignments, each
+   once. *)
+Theorem C05_indexed_no_assignment_twice : forall ks, ks <> [] -> forall rel,
+  (forall b o, In (b, o) rel -> full ks b = true) ->
+  forall (f : assignment -> list entry) (asked : assignment -> Prop),
+  (forall L r o, asked L -> In (r, o) (f L) -> over ks r = true /\ nonempty r = true /\ sub_on ks L r = true) ->
+  (forall L r o b o', asked L -> In (r, o) (f L) -> In (b, o') rel -> sub_on ks r b = true -> o' = o) ->
+  (forall L b o, asked L -> In (b, o) rel -> compatible ks b L = true -> exists r, In (r, o) (f L) /\ sub_on ks r b = true) ->
+  (forall L L0 r o, asked L -> asked L0 -> In (r, o) (f L0) -> compatible ks r L = true ->
+     exists b o', In (b, o') rel /\ sub_on ks (merge ks L r) b = true) ->
+  (forall L, asked L -> once ks (f L)) ->
+  forall Ls, Forall (fun L => binds_some ks L = true /\ asked L /\ NoDup (map fst L)) Ls ->
+  Forall2 (fun rows L => (rows = f L \/ exists o, rows = [(L, o)]) /\ once ks rows) (cached_run_f f (init ks) Ls) Ls.
+Proof. exact cached_rows_once. Qed.
+Print Assumptions C05_indexed_no_assignment_twice.
+
+(* non-vacuity: the else-if operator and the history of C05_denotation_nonvacuous meet the further hypotheses *)
+Example C05_once_nonvacuous :
+  let ks := [1; 2] in
+  let rel := [([(1, 0); (2, 0)], 0); ([(1, 0); (2, 1)], 0); ([(1, 1); (2, 1)], 0)] in
+  let Ls := [[(2, 1)]; [(1, 0)]; [(1, 0); (2, 1)]; [(1, 1)]] in
+  let asked := fun L => In L Ls in
+  (forall L L0 r o, asked L -> asked L0 -> In (r, o) (elseif_op L0) -> compatible ks r L = true ->
+     exists b o', In (b, o') rel /\ sub_on ks (merge ks L r) b = true) /\
+  (forall L, asked L -> once ks (elseif_op L)) /\
+  Forall (fun L => binds_some ks L = true /\ asked L /\ NoDup (map fst L)) Ls.
+Proof.
+  cbv zeta. split; [|split].
+  - assert (Hb : forallb (fun L => forallb (fun L0 => forallb (fun ro => implb (compatible [1; 2] (fst ro) L)
+                    (existsb (fun bo => sub_on [1; 2] (merge [1; 2] L (fst ro)) (fst bo))
+                             [([(1, 0); (2, 0)], 0); ([(1, 0); (2, 1)], 0); ([(1, 1); (2, 1)], 0)])) (elseif_op L0))
+                    [[(2, 1)]; [(1, 0)]; [(1, 0); (2, 1)]; [(1, 1)]]) [[(2, 1)]; [(1, 0)]; [(1, 0); (2, 1)]; [(1, 1)]] = true)
+      by (vm_compute; reflexivity).
+    intros L L0 r o AL A0 Hr C. rewrite forallb_forall in Hb. specialize (Hb L AL). rewrite forallb_forall in Hb. specialize (Hb L0 A0).
+    rewrite forallb_forall in Hb. specialize (Hb (r, o) Hr). cbn [fst] in Hb. rewrite C in Hb. cbn [implb] in Hb.
+    apply existsb_exists in Hb as ([b o'] & Hin & S). exists b, o'. now split.
+  - intros L A. apply once_of_apart. repeat (destruct A as [<-|A]; [vm_compute; reflexivity|]). destruct A.
+  - repeat (apply Forall_cons; [split; [reflexivity|]; split; [cbn; tauto | repeat constructor; cbn; intuition discriminate]|]). apply Forall_nil.
 Qed.
 
 (* non-vacuity: a history with repeated lookups is answered from the memo and agrees with the uncached function *)
